@@ -5,6 +5,9 @@ import smoother_common as S
 
 def run(res, tier, seed):
     res.trusted_base += [
+        'translator T3 (translate/t3_stencil.py): the two A_sc_ortho macros of the take smoother regenerated into gen/StencilGen.v; '
+        'StencilTieSmoother.v proves that they compute the right-hand side of the model block update (off-line couplings of A, symmetry shift); '
+        'the give smoother and the line-matrix assembly are tied by the K-affine correspondence only',
         'hand-written model coq/theories/SmootherDefs.v (block Gauss-Seidel over whole lines in the order black circles, white '
         'circles, black radial lines, white radial lines; rows of A from StencilDefs.A_take_row) tied by K-affine: harness/'
         'h_smoother.cpp extracts the linear map (x,f) -> x\' of SmootherGive and SmootherTake; the extracted model runs in exact '
@@ -18,6 +21,10 @@ def run(res, tier, seed):
         'which is partial); energy monotonicity of a sweep is not proved',
         'theorem premises for the colour independence: ntheta = 2*Mc with Mc >= 2, at least one circle',
     ]
+    for n, ok, msg in C.run_translators(['t3_stencil']):
+        res.obligation('translator:' + n, ok, msg[-300:])
+        if not ok:
+            res.fail('translator:' + n, msg)
     cr = C.coq_build('C06')
     res.add_coq(cr)
     out = S.run(res, tier, seed, 'smoother')
